@@ -265,6 +265,9 @@ where
         assert!(out_n <= out.len());
 
         input.consume(n);
+        // Only the tags of the samples consumed. The overlap and any remainder
+        // stay in the input stream, tags and all, for the next call.
+        tags.retain(|t| t.pos() < n);
         if self.deci == 1 {
             out.produce(out_n, &tags);
         } else {
